@@ -40,6 +40,7 @@ import ast
 from pathlib import Path
 
 from .common import HEADER, body_no_doc, fail, find_func, parse
+from .c12_norm import normalize
 
 CLASSES = [
     ("pyxel/detectors/geometry.py", "Geometry", "CGeometry"),
@@ -489,6 +490,7 @@ def extract_class(repo: Path, rel: str, cname: str):
     init = find_func(tree, "__init__", cname)
     if init.args.vararg or init.args.kwarg or init.args.posonlyargs:
         fail(init, "constructor signature")
+    init = normalize(repo, rel, tree, init, cname)       # helpers inlined, aliases substituted, match -> if ... (c12_norm)
     params = [a.arg for a in init.args.args[1:]] + [a.arg for a in init.args.kwonlyargs]
     acc = {p: GuardAcc() for p in params}
     walk_guards(body_no_doc(init), params, acc, {})
@@ -501,6 +503,7 @@ def extract_class(repo: Path, rel: str, cname: str):
         if any(d.endswith(".setter") for d in decs):
             if decs != [f"{fn.name}.setter"] or len(fn.args.args) != 2:
                 fail(fn, "setter shape")
+            fn = normalize(repo, rel, tree, fn, cname)
             v = fn.args.args[1].arg
             a = {v: GuardAcc()}
             walk_guards(body_no_doc(fn), [v], a, {})
@@ -538,6 +541,14 @@ def str_list(node):
     if isinstance(node, (ast.List, ast.Tuple)) and all(
             isinstance(e, ast.Constant) and isinstance(e.value, str) for e in node.elts):
         return [e.value for e in node.elts]
+    return None
+
+
+def self_attr_list(node):
+    """[self.a, self.b, ...] -> [a, b, ...]"""
+    if isinstance(node, (ast.List, ast.Tuple)) and node.elts and all(
+            isinstance(e, ast.Attribute) and isinstance(e.value, ast.Name) and e.value.id == "self" for e in node.elts):
+        return [e.attr for e in node.elts]
     return None
 
 
@@ -603,6 +614,8 @@ def count_expr(val, lists, mode: str):
         keys = lists[gen.iter.id]
     elif str_list(gen.iter) is not None:
         keys = str_list(gen.iter)
+    elif self_attr_list(gen.iter) is not None:
+        keys = self_attr_list(gen.iter)
     else:
         fail(val, "count expression over an unknown list")
     if val.func.id == "sum" and not gen.ifs:
@@ -631,10 +644,8 @@ def count_checks(fn: ast.FunctionDef, site: str, mode: str):
             if sl is not None:
                 lists[nm] = sl
                 continue
-            if (isinstance(val, ast.List) and val.elts and all(
-                    isinstance(e, ast.Attribute) and isinstance(e.value, ast.Name) and e.value.id == "self"
-                    for e in val.elts)):
-                lists[nm] = [e.attr for e in val.elts]
+            if self_attr_list(val) is not None:
+                lists[nm] = self_attr_list(val)
                 continue
             ce = count_expr(val, lists, mode)
             if ce is not None:
@@ -666,101 +677,149 @@ def count_checks(fn: ast.FunctionDef, site: str, mode: str):
     return checks, counts
 
 
+def _in_dct_test(t):
+    """"k" in dct -> k"""
+    if (isinstance(t, ast.Compare) and len(t.ops) == 1 and isinstance(t.ops[0], ast.In)
+            and isinstance(t.left, ast.Constant) and isinstance(t.left.value, str)
+            and isinstance(t.comparators[0], ast.Name) and t.comparators[0].id == "dct"):
+        return t.left.value
+    return None
+
+
+def _chain_link(b, target: str):
+    """target["k"] = <v>  |  target = {"k": <v>}   -> (k, v) ; None if the statement does not write `target`"""
+    if not (isinstance(b, ast.Assign) and len(b.targets) == 1):
+        return None
+    t, v = b.targets[0], b.value
+    if (isinstance(t, ast.Subscript) and isinstance(t.value, ast.Name) and t.value.id == target
+            and isinstance(t.slice, ast.Constant)):
+        return t.slice.value, v
+    if (isinstance(t, ast.Name) and t.id == target and isinstance(v, ast.Dict) and len(v.keys) == 1
+            and isinstance(v.keys[0], ast.Constant)):
+        return v.keys[0].value, v.values[0]
+    return None
+
+
+def _is_empty_dict_assign(b, target) -> bool:
+    return (isinstance(b, ast.Assign) and len(b.targets) == 1 and isinstance(b.targets[0], ast.Name)
+            and b.targets[0].id == target and isinstance(b.value, ast.Dict) and not b.value.keys)
+
+
 def dispatch_chain(fn: ast.FunctionDef, target: str):
-    """if "k" in dct: target["k"] = to_x(dct["k"]) elif ... else: raise  -> [k, ...] (all three k's equal)"""
-    for st in body_no_doc(fn):
-        if not isinstance(st, ast.If):
+    """if "k" in dct: target["k"] = to_x(dct["k"]) elif ... else: raise  -> [(k, to_x), ...] (all three k's equal).
+    A link may also be written `target = {"k": to_x(dct["k"])}`; the chain may end in `else: target = {}` when a later
+    `if not target: raise` refuses the document (the shape an inlined `first key present` helper leaves)."""
+    body = body_no_doc(fn)
+    for pos, st in enumerate(body):
+        if not isinstance(st, ast.If) or _in_dct_test(st.test) is None:
+            continue
+        if len(st.body) != 1 or _chain_link(st.body[0], target) is None:
             continue
         node, keys = st, []
-        okchain = True
         while True:
-            t = node.test
-            if not (isinstance(t, ast.Compare) and len(t.ops) == 1 and isinstance(t.ops[0], ast.In)
-                    and isinstance(t.left, ast.Constant) and isinstance(t.left.value, str)
-                    and isinstance(t.comparators[0], ast.Name) and t.comparators[0].id == "dct"):
-                okchain = False
-                break
-            k = t.left.value
-            if len(node.body) != 1:
-                okchain = False
-                break
-            b = node.body[0]
-            if not (isinstance(b, ast.Assign) and len(b.targets) == 1 and isinstance(b.targets[0], ast.Subscript)
-                    and isinstance(b.targets[0].value, ast.Name)):
-                okchain = False
-                break
-            if b.targets[0].value.id != target:
-                okchain = False
-                break
-            sk = b.targets[0].slice
-            v = b.value
-            if not (isinstance(sk, ast.Constant) and sk.value == k and isinstance(v, ast.Call)
-                    and isinstance(v.func, ast.Name) and len(v.args) == 1 and not v.keywords
-                    and ast.unparse(v.args[0]) == f"dct[{k!r}]"):
-                fail(b, f"section {k!r} is not built from dct[{k!r}] into {target}[{k!r}]")
+            k = _in_dct_test(node.test)
+            if k is None:
+                fail(node, f"dispatch chain for {target}: test is not `\"key\" in dct`")
+            link = _chain_link(node.body[0], target) if len(node.body) == 1 else None
+            if link is None:
+                fail(node, f"dispatch chain for {target}: a branch does more than build its section")
+            sk, v = link
+            if not (sk == k and isinstance(v, ast.Call) and isinstance(v.func, ast.Name) and len(v.args) == 1
+                    and not v.keywords and ast.unparse(v.args[0]) == f"dct[{k!r}]"):
+                fail(node.body[0], f"section {k!r} is not built from dct[{k!r}] into {target}[{k!r}]")
             keys.append((k, v.func.id))
             if len(node.orelse) == 1 and isinstance(node.orelse[0], ast.If):
                 node = node.orelse[0]
                 continue
             if len(node.orelse) == 1 and isinstance(node.orelse[0], ast.Raise):
                 break
+            if len(node.orelse) == 1 and _is_empty_dict_assign(node.orelse[0], target) and any(
+                    isinstance(later, ast.If) and ast.unparse(later.test) == f"not {target}" and not later.orelse
+                    and later.body and isinstance(later.body[-1], ast.Raise) for later in body[pos + 1:]):
+                break
             fail(node, "dispatch chain must end with else: raise")
-        if okchain and keys:
-            return keys
+        return keys
     fail(fn, f"dispatch chain for {target} not found")
 
 
-def check_builders(tree, det_builders):
+def _resolve_local(fn, node):
+    """a name that is assigned exactly once in `fn` -> the assigned expression (named intermediate result)"""
+    seen = set()
+    while isinstance(node, ast.Name) and node.id not in seen:
+        seen.add(node.id)
+        vals = [assigned(n)[1] for n in ast.walk(fn) if assigned(n)[0] == node.id]
+        stores = [n for n in ast.walk(fn) if isinstance(n, ast.Name) and n.id == node.id and isinstance(n.ctx, ast.Store)]
+        if len(vals) != 1 or len(stores) != 1:
+            break
+        node = vals[0]
+    return node
+
+
+def check_builders(repo, rel, tree, det_builders):
     """to_ccd & co: every keyword kw of the detector call is to_*(dct["kw"]); to_*_geometry / to_*_characteristics
-    pass the section unchanged."""
+    pass the section unchanged.  Nothing of this enters a theorem (what the builders do with a section is judged by the
+    correspondence, setting by setting): a builder written in another way is NOTED in Gen_C12.v, not refused."""
+    notes = []
+    atoms = lambda name: name.startswith("to_")
     for fname in det_builders:
-        fn = find_func(tree, fname)
-        body = body_no_doc(fn)
-        if len(body) != 1 or not isinstance(body[0], ast.Return) or not isinstance(body[0].value, ast.Call):
-            fail(fn, "detector builder shape")
-        call = body[0].value
-        kws = {k.arg for k in call.keywords}
-        if call.args or kws != {"geometry", "environment", "characteristics"}:
-            fail(call, "detector builder keywords")
-        for k in call.keywords:
-            v = k.value
-            if not (isinstance(v, ast.Call) and isinstance(v.func, ast.Name) and len(v.args) == 1 and not v.keywords
-                    and ast.unparse(v.args[0]) == f"dct[{k.arg!r}]" and k.arg in v.func.id):
-                fail(k.value, f"{fname}: section {k.arg!r} is not built from dct[{k.arg!r}] by its own builder")
-            sub = find_func(tree, v.func.id)
-            sb = body_no_doc(sub)
-            # optional `if dct is None: dct = {}`
-            if sb and isinstance(sb[0], ast.If) and ast.unparse(sb[0].test) == "dct is None":
-                if ast.unparse(sb[0].body[0]) != "dct = {}" or len(sb[0].body) != 1 or sb[0].orelse:
-                    fail(sb[0], "section default")
-                sb = sb[1:]
-            if len(sb) != 1 or not isinstance(sb[0], ast.Return):
-                fail(sub, "section builder shape")
-            r = sb[0].value
-            okr = (isinstance(r, ast.Call) and not r.args and len(r.keywords) == 1 and r.keywords[0].arg is None
-                   and ast.unparse(r.keywords[0].value) == "dct")
-            okr = okr or (isinstance(r, ast.Call) and ast.unparse(r.func).endswith(".from_dict")
-                          and len(r.args) == 1 and ast.unparse(r.args[0]) == "dct" and not r.keywords)
-            if not okr:
-                fail(sub, f"{v.func.id}: the section is not passed unchanged to the class")
+        try:
+            fn = normalize(repo, rel, tree, find_func(tree, fname), atoms=atoms)
+            rets = [n for n in ast.walk(fn) if isinstance(n, ast.Return)]
+            if len(rets) != 1 or not isinstance(_resolve_local(fn, rets[0].value), ast.Call):
+                fail(fn, "detector builder shape")
+            call = _resolve_local(fn, rets[0].value)
+            kws = {k.arg for k in call.keywords}
+            if call.args or kws != {"geometry", "environment", "characteristics"}:
+                fail(call, "detector builder keywords")
+            for k in call.keywords:
+                v = _resolve_local(fn, k.value)
+                if not (isinstance(v, ast.Call) and isinstance(v.func, ast.Name) and len(v.args) == 1 and not v.keywords
+                        and ast.unparse(_resolve_local(fn, v.args[0])) == f"dct[{k.arg!r}]" and k.arg in v.func.id):
+                    fail(k.value, f"{fname}: section {k.arg!r} is not built from dct[{k.arg!r}] by its own builder")
+                sub = normalize(repo, rel, tree, find_func(tree, v.func.id), atoms=atoms)
+                sb = body_no_doc(sub)
+                # optional `if dct is None: dct = {}`
+                if sb and isinstance(sb[0], ast.If) and ast.unparse(sb[0].test) == "dct is None":
+                    if ast.unparse(sb[0].body[0]) != "dct = {}" or len(sb[0].body) != 1 or sb[0].orelse:
+                        fail(sb[0], "section default")
+                    sb = sb[1:]
+                rets2 = [n for n in sb if isinstance(n, ast.Return)]
+                if len(rets2) != 1 or sb[-1] is not rets2[0]:
+                    fail(sub, "section builder shape")
+                r = _resolve_local(sub, rets2[0].value)
+                okr = (isinstance(r, ast.Call) and not r.args and len(r.keywords) == 1 and r.keywords[0].arg is None
+                       and ast.unparse(r.keywords[0].value) == "dct")
+                okr = okr or (isinstance(r, ast.Call) and ast.unparse(r.func).endswith(".from_dict")
+                              and len(r.args) == 1 and ast.unparse(r.args[0]) == "dct" and not r.keywords)
+                if not okr:
+                    fail(sub, f"{v.func.id}: the section is not passed unchanged to the class")
+        except Exception as ex:       # TranslationError included: noted, not refused (see the docstring)
+            notes.append(f"builder {fname}: not read ({str(ex)[:160]})")
+    return notes
+
+
+BUILDER_NOTES: list[str] = []
 
 
 def extract_configuration(repo: Path):
-    tree = parse(repo, "pyxel/configuration/configuration.py")
-    bc = find_func(tree, "_build_configuration")
+    rel = "pyxel/configuration/configuration.py"
+    tree = parse(repo, rel)
+    atoms = lambda name: name.startswith("to_") or name == "Configuration"
+    bc = normalize(repo, rel, tree, find_func(tree, "_build_configuration"), atoms=atoms)
     checks1, _ = count_checks(bc, "_build_configuration", "keys")
-    pi = find_func(tree, "__post_init__", "Configuration")
+    pi = normalize(repo, rel, tree, find_func(tree, "__post_init__", "Configuration"), "Configuration")
     checks2, _ = count_checks(pi, "Configuration.__post_init__", "attrs")
     modes = dispatch_chain(bc, "running_mode")
     dets = dispatch_chain(bc, "detector")
-    check_builders(tree, [f for _, f in dets])
+    BUILDER_NOTES[:] = check_builders(repo, rel, tree, [f for _, f in dets])
     # the collected dicts reach Configuration(**running_mode, **detector)
     ok = False
     for n in ast.walk(bc):
         if isinstance(n, ast.Call) and ast.unparse(n.func) == "Configuration":
             stars = sorted(ast.unparse(k.value) for k in n.keywords if k.arg is None)
-            named = {k.arg: ast.unparse(k.value) for k in n.keywords if k.arg is not None}
-            ok = stars == ["detector", "running_mode"] and named == {"pipeline": "pipeline"} and not n.args
+            named = {k.arg: ast.unparse(_resolve_local(bc, k.value)) for k in n.keywords if k.arg is not None}
+            ok = (stars == ["detector", "running_mode"] and set(named) == {"pipeline"}
+                  and named["pipeline"].startswith("to_pipeline(") and not n.args)
     if not ok:
         fail(bc, "Configuration(pipeline=pipeline, **running_mode, **detector) not found")
     return checks1, checks2, [k for k, _ in modes], [k for k, _ in dets]
@@ -798,7 +857,7 @@ def extract_readout(repo: Path):
     if init.args.vararg or init.args.kwarg or init.args.posonlyargs:
         fail(init, "Readout constructor signature")
     params = [a.arg for a in init.args.args[1:]] + [a.arg for a in init.args.kwonlyargs]
-    rep = find_func(tree, "replace", "Readout")
+    rep = normalize(repo, "pyxel/exposure/readout.py", tree, find_func(tree, "replace", "Readout"), "Readout")
     if rep.args.kwarg is None or rep.args.vararg or len(rep.args.args) != 1 or rep.args.kwonlyargs:
         fail(rep, "Readout.replace signature (expected (self, **changes))")
     kw = rep.args.kwarg.arg
@@ -962,8 +1021,8 @@ def translate(repo: Path) -> str:
         return [f"  PCheck {gstr(site)} [{'; '.join(gstr(k) for k in keys)}] {how} {op} {n}"
                 for site, keys, how, op, n in checks]
     out = HEADER + PRELUDE
-    for n in notes:
-        out += f"(* {n} *)\n"
+    for n in notes + BUILDER_NOTES:
+        out += f"(* {n.replace('*)', '* )')} *)\n"
     out += "Definition src_guards : guard_table := [\n" + ";\n".join(rows) + "\n].\n"
     out += "Definition src_stores : store_table := [\n" + ";\n".join(srows) + "\n].\n"
     out += "Definition src_checks_doc : list presence_check := [\n" + ";\n".join(crows(pre)) + "\n].\n"
